@@ -278,6 +278,11 @@ def run(prog, rep):
     from .c11 import accessor_agreement
     rep.attempt(accessor_agreement, ct, rep)
     rep.attempt(M.get_block_reads_disk, ct, rep)
+    # the table the mutators work from is the one on disk now: parsed on every entry (another object may have changed the file in between)
+    rep.attempt(lambda: M.parse_on_enter(ct, rep))
+    # 'reading it returns content equal to what was stored': the numeric primitive every block goes through
+    from .. import primitives as _PR
+    rep.attempt(_PR.tdftype_primitives, prog, rep)
     # a block added after a removal must not land on another block's bytes: the free slots point at end of data
     rep.attempt(M.offset_provenance, ct, rep)
     rep.attempt(M.repoint_later, ct, rep)
